@@ -183,7 +183,11 @@ def assemble_fn(unit, spec, idx, raw, counts):
     if len(lspecs) != len(f["loops"]):
         raise Undecided("anchor lost: %s has %d loops, contract has %d" % (spec["path"], len(f["loops"]), len(lspecs)))
     for k, (lp, ls) in enumerate(zip(f["loops"], lspecs)):
-        inv = clause_block("invariant", ls.get("invariant", []), defs, "            ")
+        inv = (
+            clause_block("invariant_except_break", ls.get("invariant_except_break", []), defs, "            ")
+            + clause_block("invariant", ls.get("invariant", []), defs, "            ")
+            + clause_block("ensures", ls.get("ensures", []), defs, "            ")
+        )
         dec = subst(defs, ls.get("decreases", "")).strip()
         dec_txt = ("            decreases " + dec + ",\n") if dec else ""
         lc = inv + dec_txt
